@@ -26,6 +26,7 @@ R0 == [called |-> FALSE, given |-> NoGiven, sid |-> 0, canceled |-> FALSE,
 
 M0(tr) == [cfg |-> tr.cfg, r |-> << >>, lastSid |-> 0,
            srvIW |-> 65535, srvMFS |-> 16384, srvMCS |-> -1,
+           limQ |-> <<>>,      \* limits of the SETTINGS frames not yet acknowledged: <<[mfs, mcs]>> (-1 = not carried)
            grantC |-> 65535, sentC |-> 0,
            cliIW |-> 65535, rGrantC |-> 65535, rSentC |-> 0,
            setSent |-> 0, ackRecv |-> 0, pushAdvertised |-> -1,
@@ -53,7 +54,9 @@ GivenFields(g) == SelectSeq(g.fields, LAMBDA f : f[1] \notin ConnSpecific /\ f[1
 \* fasthttp reports a default content-type / content-length on a response that carried none
 SeenMinusDefaults(fs) == SelectSeq(fs, LAMBDA f : f[1] # B_contenttype /\ f[1] # B_contentlength)
 
-OpenStreams(mm) == {i \in DOMAIN mm.r : mm.r[i].sid # 0 /\ ~((mm.r[i].es >= 1 \/ mm.r[i].rstByClient) /\ (mm.r[i].rES \/ mm.r[i].rRst)) /\ ~mm.r[i].rRst /\ ~mm.r[i].rstByClient}
+\* (a response that carries END_STREAM on its HEADERS ends the stream when its header block ends)
+OpenStreams(mm) == {i \in DOMAIN mm.r : mm.r[i].sid # 0 /\ ~((mm.r[i].es >= 1 \/ mm.r[i].rstByClient) /\ ((mm.r[i].rES /\ ~mm.r[i].rblkOpen) \/ mm.r[i].rRst))
+                                         /\ ~mm.r[i].rRst /\ ~mm.r[i].rstByClient}
 
 -----------------------------------------------------------------------------
 OnCall(mm, e) ==
@@ -113,7 +116,12 @@ OnRecv(mm, e) ==
   ELSE IF f.ty = T_RST THEN
      IF i # 0 THEN PutR(mm, i, [x EXCEPT !.rstByClient = TRUE]) ELSE mm
   ELSE IF f.ty = T_SETTINGS THEN
-     IF f.ack THEN FlagIf([mm EXCEPT !.ackRecv = @ + 1], mm.ackRecv + 1 > mm.setSent, "C18:ack-without-settings")
+     IF f.ack THEN
+        LET m1 == IF mm.limQ = <<>> THEN mm
+                  ELSE [mm EXCEPT !.limQ = Tail(@),
+                                  !.srvMFS = IF Head(mm.limQ).mfs >= 0 THEN Head(mm.limQ).mfs ELSE @,
+                                  !.srvMCS = IF Head(mm.limQ).mcs >= 0 THEN Head(mm.limQ).mcs ELSE @]
+        IN FlagIf([m1 EXCEPT !.ackRecv = @ + 1], mm.ackRecv + 1 > mm.setSent, "C18:ack-without-settings")
      ELSE [mm EXCEPT !.cliIW = IF f.iw >= 0 THEN f.iw ELSE @, !.pushAdvertised = f.code]
   ELSE IF f.ty = T_WU THEN
      IF f.sid = 0 THEN
@@ -139,8 +147,11 @@ OnSend(mm, e) ==
   ELSE IF f.ty = T_SETTINGS THEN
      IF f.ack THEN mm
      ELSE LET m1 == [mm EXCEPT !.setSent = @ + 1,
-                               !.srvMFS = IF f.mfs >= 0 /\ f.sbad = 0 THEN f.mfs ELSE @,
-                               !.srvMCS = IF f.mcs >= 0 /\ f.sbad = 0 THEN f.mcs ELSE @,
+                               \* "from the acknowledgement on": a smaller frame size or stream limit binds the frames
+                               \* the client sends after its ACK; a larger one may be used at once
+                               !.srvMFS = IF f.mfs >= 0 /\ f.sbad = 0 /\ f.mfs > @ THEN f.mfs ELSE @,
+                               !.srvMCS = IF f.mcs >= 0 /\ f.sbad = 0 /\ @ >= 0 /\ f.mcs > @ THEN f.mcs ELSE @,
+                               !.limQ = Append(@, [mfs |-> IF f.sbad = 0 THEN f.mfs ELSE -1, mcs |-> IF f.sbad = 0 THEN f.mcs ELSE -1]),
                                !.badSettings = @ \/ f.sbad # 0]
           IN IF f.iw >= 0 /\ f.sbad = 0
              THEN [m1 EXCEPT !.srvIW = f.iw,
@@ -212,7 +223,7 @@ OnQ(mm, e) ==
       c5 == FlagIf(c4, live /\ mm.ackRecv # mm.setSent, "C18:settings-not-acknowledged-exactly-once")
       c6 == FlagIf(c5, ~e.settled /\ aboveLast # {} /\ ~mm.peerGone, "C11:request-above-last-stream-id-not-failed-promptly")
       c7 == FlagIf(c6, ~e.settled /\ mm.badSettings /\ e.canopen /\ ~e.closed, "C18:invalid-settings-value-accepted")
-      c8a == FlagIf(c7, ~e.settled /\ mm.goaway /\ e.canopen, "C11:connection-still-offered-for-new-streams-after-goaway")
+      c8a == FlagIf(c7, ~e.settled /\ mm.goaway /\ e.canopen /\ ~e.closed, "C11:connection-still-offered-for-new-streams-after-goaway")
       c8 == FlagIf(c8a, ~e.settled /\ mm.pushSent /\ e.canopen /\ ~e.closed, "C18:push-promise-tolerated-although-enable-push-0-was-advertised")
   IN [c8 EXCEPT !.gaSettled = mm.goaway, !.connClosed = e.closed]
 
@@ -228,7 +239,8 @@ OnEnd(mm, e) ==
 Step(mm, e) ==
   CASE e.k = "call" -> OnCall(mm, e)
     [] e.k = "recv" -> OnRecv(mm, e)
-    [] e.k = "send" -> OnSend(mm, e)
+    \* a frame whose size is wrong for its type is a connection error for the client too: from then on the peer is at fault
+    [] e.k = "send" -> [OnSend(mm, e) EXCEPT !.badSettings = @ \/ FixedLenBad(e.f) \/ (e.f.ty \in {T_DATA, T_HEADERS} /\ e.f.padbad)]
     [] e.k = "resolve" -> OnResolve(mm, e)
     [] e.k = "cancel" -> IF e.ok THEN PutR(mm, e.req, [Rq(mm, e.req) EXCEPT !.canceled = TRUE]) ELSE mm
     [] e.k = "q" -> OnQ(mm, e)
